@@ -81,6 +81,7 @@ func (u *Unit) execInstr(fr *Frame, in ssa.Instruction, st *State, reach *Term) 
 		u.oblige("safety", *reach, not(eq(m.T, intLit(0))), "safety.nilmap", "", "assignment to entry in nil map")
 		dn, dh, vn, vh := u.mapHeaps(st, mt)
 		kt := u.termOf(k)
+		u.mapLenStep(st, mt, u.def(sel(dh, m.T)), u.def(sto(sel(dh, m.T), kt, tTrue)), kt, true)
 		st.heaps[dn] = u.def(sto(dh, m.T, sto(sel(dh, m.T), kt, tTrue)))
 		st.heaps[vn] = u.def(sto(vh, m.T, sto(sel(vh, m.T), kt, u.termOf(v))))
 	case *ssa.Slice:
@@ -96,6 +97,7 @@ func (u *Unit) execInstr(fr *Frame, in ssa.Instruction, st *State, reach *Term) 
 		dn, dh, _, _ := u.mapHeaps(st, mt)
 		ks := u.sortOf(mt.Key())
 		st.heaps[dn] = u.def(sto(dh, r, constArray(arraySort(ks, "Bool"), tFalse)))
+		u.assume(tTrue, eq(app("Int", u.mapLenFn(st, mt), constArray(arraySort(ks, "Bool"), tFalse)), intLit(0)))
 		fr.vals[i] = Val{T: r, Typ: i.Type()}
 	case *ssa.MakeChan:
 		fr.vals[i] = Val{T: u.newRef(st), Typ: i.Type()}
